@@ -19,6 +19,7 @@ U = "3f7f0c5f-5d54-4292-94ea-ec1e1952be1"
 T0 = "2020-01-01T00:00:00.000Z"
 T0SUB = "2020-01-01T00:00:00.000500Z"
 RED = "marking-definition--5e57c739-391a-4eb3-b6be-7d15ca92d5ed"
+GREEN = "marking-definition--34098fce-860f-48ae-8e50-ebd3cc5e41da"
 IDENT = "identity--" + U + "7"
 IDENT20 = "identity--3f7f0c5f-5d54-4292-94ea-ec1e1952be17"
 
@@ -46,12 +47,17 @@ def starts():
         "v21-custom-unregistered-dict": ("2.1", "dict", dict(type="x-unreg", spec_version="2.1", id="x-unreg--" + U + "6", created=T0, modified=T0, name="n", description="d",
                                                              created_by_ref=IDENT)),
         "v21-sco-file-versionable": ("2.1", "sco", dict(type="file", spec_version="2.1", name="f.txt", size=1, created=T0, modified=T0, revoked=False)),
+        # the same kind of SCO kept as a dict with a random (UUIDv4) identifier: its identifier does not derive from the content, so 'name' may change
+        "v21-sco-file-dict-uuid4": ("2.1", "sco4", dict(type="file", spec_version="2.1", id="file--" + U + "8", name="f.txt", size=1, created=T0, modified=T0, revoked=False)),
+        # objects that already carry an object marking (list-valued property shared with the original)
+        "v21-campaign-obj-marked": ("2.1", "obj", dict(camp21, object_marking_refs=[GREEN], labels=["l1"])),
+        "v20-campaign-dict-marked": ("2.0", "dict", dict(camp20, object_marking_refs=[GREEN], labels=["l1"])),
     }
 
 
 MAIN = ["v21-campaign-obj", "v21-campaign-dict", "v20-campaign-obj", "v20-campaign-dict"]
 SIDE = ["v21-campaign-obj-subms", "v21-campaign-dict-subms", "v21-relationship-obj", "v20-relationship-obj", "v21-custom-registered-obj", "v21-custom-unregistered-dict",
-        "v21-sco-file-versionable"]
+        "v21-sco-file-versionable", "v21-sco-file-dict-uuid4", "v21-campaign-obj-marked", "v20-campaign-dict-marked"]
 
 
 def register_custom():
@@ -67,7 +73,7 @@ def make(form):
     import stix2
     ver, kind, d = starts()[form]
     d = copy.deepcopy(d)
-    if kind == "dict":
+    if kind in ("dict", "sco4"):
         return d
     if kind == "sco":
         return stix2.v21.File(allow_custom=True, **{k: v for k, v in d.items() if k not in ("type", "spec_version")})
@@ -84,18 +90,18 @@ def view(obj):
 def events_for(form, full=True):
     ver, kind, d = starts()[form]
     evs = []
-    second_opt = "objective" if d["type"] == "campaign" else "size" if kind == "sco" else None
+    second_opt = "objective" if d["type"] == "campaign" else "size" if kind in ("sco", "sco4") else None
     chg_ops = ["chg1", "rm1"] + (["add1", "chg2"] if second_opt and full else []) + ["revoke", "mark"]
-    if kind == "sco":
-        chg_ops = ["chg-noncontrib", "revoke"]
+    if kind in ("sco", "sco4"):
+        chg_ops = ["chg-noncontrib", "revoke"] + (["chg-name"] if kind == "sco4" else [])
     if not full:
-        chg_ops = ["chg1"] if kind != "sco" else ["chg-noncontrib"]
+        chg_ops = ["chg1"] if kind not in ("sco", "sco4") else ["chg-noncontrib"]
     for op in chg_ops:
         for cname, _ in CLOCKS:
             evs.append({"op": op, "clock": cname})
     for mname, _ in MODS:
         evs.append({"op": "mod", "delta": mname, "as": "str"})
-    if full and kind != "sco":
+    if full and kind not in ("sco", "sco4"):
         evs.append({"op": "chg-required", "clock": "+1s"})
     if full:
         evs.append({"op": "mod", "delta": "+1us", "as": "datetime"})
@@ -103,7 +109,7 @@ def events_for(form, full=True):
         for p in ("created", "created_by_ref", "id", "type"):
             evs.append({"op": "unmod", "prop": p})
             evs.append({"op": "unmod-none", "prop": p})
-        if kind != "sco":
+        if kind not in ("sco", "sco4"):
             evs.append({"op": "req-none"})
         if kind == "sco":
             evs.append({"op": "sco-contrib", "prop": "name"})
@@ -137,6 +143,8 @@ def changes_for(ev, form, cur_view, depth):
         return {"description": "dd%d" % depth, "objective": "oo%d" % depth}
     if op == "chg-noncontrib":
         return {"size": depth + 2}
+    if op == "chg-name":
+        return {"name": "renamed%d.txt" % depth}
     if op == "chg-required":
         return {"relationship_type": "related-to"} if d["type"] == "relationship" else {"name": "n%d" % (depth + 2)}
     if op == "mod":
@@ -254,6 +262,8 @@ def step(form, obj, ev, part, case, depth):
                 exp.pop(k, None)
             else:
                 exp[k] = v
+    if "object_marking_refs" in exp:
+        exp["object_marking_refs"] = sorted(exp["object_marking_refs"])
     got = {k: v for k, v in out.items() if k != "modified"}
     if "object_marking_refs" in got:
         got["object_marking_refs"] = sorted(got["object_marking_refs"])
@@ -313,13 +323,57 @@ def run_sequence(item, part):
         run_history({"form": f, "history": [], "full": True, "sequence": item["forms"]}, part)
 
 
+SWEEP_SECONDS = [("1969-12-31T23:59:59", -1), ("1970-01-01T00:00:00", 0), ("1986-01-05T18:48:32", 2 ** 29), ("2004-01-10T13:37:04", 2 ** 30), ("2038-01-19T03:14:08", 2 ** 31),
+                 ("1901-12-13T20:45:52", -2 ** 31), ("2106-02-07T06:28:16", 2 ** 32), ("0999-12-31T23:59:59", None)]
+
+
+def run_sweep(item, part):
+    """the automatic modified time for EVERY millisecond of a base second (around the Unix epoch and the powers of two of the epoch-second count, where
+    float arithmetic on timestamps loses the last digit) x clock readings less than one millisecond later: the new version must still be strictly newer"""
+    import stix2
+    from stix2 import versioning as V
+    register_custom()
+    env.reset()
+    form, base = item["form"], item["base"]
+    ver, kind, d0 = starts()[form]
+    for ms in range(item.get("ms_lo", 0), item.get("ms_hi", 1000)):
+        mod = "%s.%03dZ" % (base, ms)
+        d = dict(copy.deepcopy(d0), created="0900-01-01T00:00:00.000Z", modified=mod)
+        obj = d if kind == "dict" else stix2.parse(d, version=ver)
+        cur = tsfmt.instant_of(mod)
+        for cname, us in (("+1us", 1), ("+500us", 500), ("+999us", 999), ("0", 0), ("-1us", -1), ("+1ms", 1000)):
+            part.transitions += 1
+            part.evaluations += 1
+            env.CLOCK.frozen = to_dt(cur + us * tsfmt.PS_PER_US)
+            try:
+                res = V.new_version(obj, description="x")
+            except Exception as e:
+                part.outcome("sweep:raises")
+                part.violation("C05/legal-op-refused/%s/sweep" % type(e).__name__, "a legal change set is refused", dict(item, ms_lo=ms, ms_hi=ms + 1, clock=cname), "new version", "%s: %s" % (type(e).__name__, str(e)[:150]))
+                continue
+            finally:
+                env.CLOCK.frozen = None
+            new = tsfmt.instant_of(view(res).get("modified"))
+            part.state(("sweep", form, base, ms, cname), nontrivial=True)
+            if new is None or not trunc_ps(new, ver) > trunc_ps(cur, ver):
+                part.outcome("sweep:NOT-NEWER")
+                part.violation("C05/not-strictly-newer/v%s/%s/clock%s/base-second-sweep" % (ver, "dict" if kind == "dict" else "obj", cname),
+                               "modified is not strictly later after serialization at the version's precision", dict(item, ms_lo=ms, ms_hi=ms + 1, clock=cname), "> " + mod, view(res).get("modified"))
+            else:
+                part.outcome("sweep:newer")
+
+
 def run_item(item, part):
+    if item.get("kind") == "sweep":
+        return run_sweep(item, part)
     if "forms" in item:
         return run_sequence(item, part)
     return run_history(item, part)
 
 
 def replay(case, part):
+    if case.get("kind") == "sweep":
+        return run_sweep({k: v for k, v in case.items() if k != "clock"}, part)
     if case.get("sequence"):
         return run_sequence({"forms": case["sequence"]}, part)
     run_history({"form": case["form"], "history": case["history"], "expand": False}, part)
@@ -366,9 +420,15 @@ def run(run):
     run.pmap(run_history, last)
     allforms = MAIN + SIDE
     run.pmap(run_item, [{"forms": [a, b]} for a in allforms for b in allforms if a != b])
+    sweep = []
+    for form in ("v20-campaign-obj", "v20-campaign-dict", "v21-campaign-obj", "v21-campaign-dict"):
+        for base, _ in SWEEP_SECONDS:
+            for lo in range(0, 1000, 250):
+                sweep.append({"kind": "sweep", "form": form, "base": base, "ms_lo": lo, "ms_hi": lo + 250})
+    run.pmap(run_item, sweep)
     run.rule = ("BFS over new_version/revoke/marking histories; each clock-reading operation x 8 clock answers relative to the current modified; full alphabet from states "
                 "at depth <= 1, reduced alphabet (one change op x 8 clocks, explicit modified x 6, revoke) from deeper states; states = distinct serialized objects; "
-                "non-trivial = reached by at least one operation")
+                "non-trivial = reached by at least one operation; plus the automatic modified time for every millisecond of %d base seconds x 6 clock readings x 4 forms" % len(SWEEP_SECONDS))
     run.bound = {"main_forms": MAIN, "side_forms": SIDE, "depth_full": 2, "depth_reduced": 2 + more_depth + 1, "clock_answers": [c[0] for c in CLOCKS], "explicit_modified": [m[0] for m in MODS],
                  "cross_object_sequences": "all ordered pairs of the 11 forms, complete first-level menus back to back in one process"}
     run.assumptions += ["clock seam: stix2.versioning.get_timestamp / stix2.base.get_timestamp replaced; the answer is frozen for the duration of one operation",
